@@ -989,6 +989,10 @@ impl<'a> Gen<'a> {
         if self.rng.chance(1, 10) {
             return "{{ when | date: '%Y-%m-%d' }}".to_string();
         }
+        if self.rng.chance(1, 24) {
+            let d = 6 + self.rng.below(35);
+            return deep_source(self.rng, d);
+        }
         if self.rng.chance(1, 6) {
             // a value computed from DATA through a filter argument on a literal entry, stored and
             // printed: looks constant to a careless optimiser, is not
@@ -1355,6 +1359,43 @@ fn exprs_mut<'a>(nodes: &'a mut [Node], out: &mut Vec<&'a mut Expr>) {
 /// gaining/losing a blank, another string of the pool, an integer +1) or one text node changed.
 /// Near-duplicates parsed on one parser defeat caches keyed too coarsely (length, prefix, source
 /// with blanks stripped ...).
+/// A template nested `depth` blocks deep (mixed block kinds) around a small body. Recursion depth is
+/// a resource a change may start to *count* (a "nesting too deep" guard, a depth-indexed scratch
+/// stack): if the count lives anywhere shared, only deep templates in flight together reach its limit.
+pub fn deep_source(rng: &mut Rng, depth: usize) -> String {
+    let mut open = String::new();
+    let mut close: Vec<&'static str> = Vec::new();
+    for i in 0..depth {
+        match rng.below(5) {
+            0 => {
+                open.push_str("{% if true %}");
+                close.push("{% endif %}");
+            }
+            1 => {
+                open.push_str(&format!("{{% for q{} in (1..1) %}}", i % 3));
+                close.push("{% endfor %}");
+            }
+            2 => {
+                open.push_str("{% unless false %}");
+                close.push("{% endunless %}");
+            }
+            3 => {
+                open.push_str("{% case 1 %}{% when 1 %}");
+                close.push("{% endcase %}");
+            }
+            _ => {
+                open.push_str("{% ifchanged %}");
+                close.push("{% endifchanged %}");
+            }
+        }
+    }
+    open.push_str(["{{ a }}.", "x", "{% increment c %}", "{{ s | upcase }}"][rng.below(4)]);
+    for c in close.iter().rev() {
+        open.push_str(c);
+    }
+    open
+}
+
 pub fn near_duplicate(nodes: &[Node], rng: &mut Rng) -> Vec<Node> {
     let mut copy = nodes.to_vec();
     let changed = {
